@@ -51,6 +51,7 @@ import QV.Lemmas.PyFlag
 import QV.Props.C01
 import QV.Props.C02
 import QV.Props.C04
+import QV.GenBridge.SpinConv
 
 namespace QV.Props
 namespace C08
